@@ -327,7 +327,7 @@ class C11(FrpProp):
     level_text = 'Theorems over the specification: occ/upd/cur of a loop equal those of its target; substitution theorem: replacing every use of a loop by its target changes no occurrence, update, value, observation or failure of any transaction (for legal programs, any number of nested loops); double loop_ fails with AlreadyLooped and sampling an unlooped CellLoop fails with SampledBeforeLoop, propagating through map/lift, never yielding a value. Tie: generated loop programs; panic kinds compared.'
     tag = "c11"
     profile = Profile(w=W(sloop=8, cloop=8, hold=10, snapshot=8, hold_lazy=4, accum_lazy=3, switch_s=1, switch_c=1),
-                      n_defs=(4, 10), n_txn=(4, 12), p_lazy=0.3, p_sample=0.5)
+                      n_defs=(4, 10), n_txn=(4, 12), p_lazy=0.3, p_sample=0.5, p_keep=0.15)
 
 
 class C12(FrpProp):
@@ -423,7 +423,7 @@ class C17(FrpProp):
         return thunk_runs_oracle(lines, out)
     level_text = "Theorems: operational model of lazy.rs (shared thunk/value cells): for any interleaving of new/clone/run the thunk is evaluated at most once and every run through every clone returns the same value; specification: a lazy taken by sample_lazy in transaction T denotes cur of the cell as of T however many transactions later it is forced, through clones, and hold_lazy starts from that value. The former known finding K3 (switch_c's initial thunk) has been repaired in /repo; its class predicate is kept, unlisted."
     tag = "c17"
-    profile = Profile(w=W(hold_lazy=6, accum_lazy=4, map_c=8, lift=8, cloop=3, hold=6, switch_c=1, map_sl=4), p_lazy=0.7, p_sample=0.3,
+    profile = Profile(w=W(hold_lazy=6, accum_lazy=4, map_c=8, lift=8, cloop=3, hold=6, switch_c=1, map_sl=4), p_keep=0.15, p_lazy=0.7, p_sample=0.3,
                       n_txn=(4, 14))
 
 
@@ -639,8 +639,8 @@ class C07(GcBacked):
                 if n is not None and n != "0":
                     return "line %d: %s node(s) still alive after every handle was dropped, every listener unlistened and a collection ran" % (k + 1, n)
         return None
-    profile = Profile(w=W(sloop=4, cloop=4, switch_s=4, switch_c=4, accum=6, collect=5, defer=2, router=2), p_mem=0.6,
-                      n_txn=(0, 8), final_teardown=True, p_keep=0.25)
+    profile = Profile(w=W(sloop=4, cloop=4, switch_s=4, switch_c=4, accum=6, collect=5, defer=2, router=2, hold_lazy=3, accum_lazy=2), p_mem=0.6,
+                      n_txn=(0, 8), final_teardown=True, p_keep=0.25, p_lazy=0.15)
     counts = (6000, 60000)
 
 
